@@ -230,6 +230,22 @@ fn variants<V: Clone + Serialize + DeserializeOwned>(name: &str, v: V) -> Vec<(S
     out
 }
 
+/// States reached by clone_from: every third state of the zoo is copied into (a clone of) another state - alternately one
+/// chosen by rotation and the last (largest) state - which held something else before.
+fn with_clone_from<V: Clone>(zoo: &mut Vec<(String, V)>) {
+    let n = zoo.len();
+    for i in (0..n).step_by(3) {
+        for j in [if (i / 3) % 2 == 0 { (i * 7 + 3) % n } else { n - 1 }] {
+            if j != i {
+                let mut d = zoo[j].1.clone();
+                d.clone_from(&zoo[i].1);
+                let name = format!("clone_from({}) into a value that was {}", zoo[i].0, zoo[j].0);
+                zoo.push((name, d));
+            }
+        }
+    }
+}
+
 const SIZES: [usize; 22] = [0, 1, 2, 63, 64, 65, 127, 128, 129, 255, 256, 257, 511, 512, 513, 2047, 2048, 2049, 4095, 4096, 4097, 8193];
 
 // ------------------------------------------------------------------------------------------------
@@ -310,6 +326,7 @@ fn zoo_bitvector(ctx: &mut Ctx) {
     zoo.push(("collect(positions [0,63,64,511,512,4095])".into(), [0usize, 63, 64, 511, 512, 4095].into_iter().collect()));
     zoo.push(("collect(u8 positions)".into(), [3u8, 200, 255].into_iter().collect()));
     zoo.push(("collect(i64 positions)".into(), [0i64, 5, 900].into_iter().collect()));
+    with_clone_from(&mut zoo);
     for (name, b) in &zoo {
         ctx.case_desc = serde_json::json!({"Zoo": {"ty": "BitVector", "elem": "", "state": name}});
         ctx.note_input(&name, true);
@@ -374,6 +391,7 @@ fn zoo_bitvectormut(ctx: &mut Ctx) {
     }
     zoo.push(("collect(positions [5,2,5,700])".into(), [5usize, 2, 5, 700].into_iter().collect()));
     zoo.push(("From<BitVector>(collect(130 bools))".into(), BitVectorMut::from(bits_of(130, 3).into_iter().collect::<BitVector>())));
+    with_clone_from(&mut zoo);
     for (name, b0) in &zoo {
         ctx.case_desc = serde_json::json!({"Zoo": {"ty": "BitVectorMut", "elem": "", "state": name}});
         ctx.note_input(&name, true);
@@ -494,6 +512,7 @@ fn zoo_qvector(ctx: &mut Ctx) {
     }
     zoo.push(("collect(i8 [-1,-128,127])".into(), [-1i8, -128, 127].into_iter().collect()));
     zoo.push(("collect(u128 [MAX, 0])".into(), [u128::MAX, 0].into_iter().collect()));
+    with_clone_from(&mut zoo);
     for (name, q) in &zoo {
         ctx.case_desc = serde_json::json!({"Zoo": {"ty": "QVector", "elem": "", "state": name}});
         ctx.note_input(&name, true);
@@ -565,6 +584,7 @@ fn zoo_quadrs<X: QuadRS>(ctx: &mut Ctx) {
     }
     zoo.extend(variants("collect(1000 quads)", X::collect_u64(&quads_of(1000, 3))));
     zoo.push(("new(3 x 8192 + 5 quads, periodic)".into(), X::new_u8(&quads_of(3 * 8192 + 5, 2))));
+    with_clone_from(&mut zoo);
     for (name, t) in &zoo {
         ctx.case_desc = serde_json::json!({"Zoo": {"ty": X::NAME, "elem": "", "state": name}});
         ctx.note_input(&name, true);
@@ -618,6 +638,7 @@ fn zoo_binrs<X: BinRS>(ctx: &mut Ctx) {
         zoo.push((format!("from({n} ones)"), X::from(bits_of(n, 1).into_iter().collect::<BitVector>())));
         zoo.push((format!("from({n} zeros)"), X::from(bits_of(n, 0).into_iter().collect::<BitVector>())));
     }
+    with_clone_from(&mut zoo);
     for (name, t) in &zoo {
         ctx.case_desc = serde_json::json!({"Zoo": {"ty": X::NAME, "elem": "", "state": name}});
         ctx.note_input(&name, true);
@@ -666,6 +687,7 @@ fn zoo_darray<const S0: bool>(ctx: &mut Ctx) {
     zoo.push(("sparse then dense groups".into(), BitGen::Groups { groups: vec![Grp::S, Grp::D], partial: 33, pk: Grp::T2, lead: 3, tail: 5, complement: false }.bits().into_iter().collect()));
     zoo.push(("complemented sparse then dense groups".into(), BitGen::Groups { groups: vec![Grp::S, Grp::D], partial: 33, pk: Grp::S, lead: 3, tail: 5, complement: true }.bits().into_iter().collect()));
     zoo.push(("collect(positions [0, 70000])".into(), [0usize, 70000].into_iter().collect()));
+    with_clone_from(&mut zoo);
     for (name, t) in &zoo {
         ctx.case_desc = serde_json::json!({"Zoo": {"ty": tyname, "elem": "", "state": name}});
         ctx.note_input(&name, true);
@@ -743,6 +765,21 @@ fn zoo_tree<X: Tree>(ctx: &mut Ctx) {
     for &n in &SIZES[3..] {
         let v: Vec<u128> = (0..n).map(|i| ((i * 7 + i / 3) % 17) as u128).collect();
         zoo.push((format!("collect({n} symbols over 17)"), build(mk(v), (n % 3) as u8), 16));
+    }
+    {
+        // clone_from between tree states (the alphabet bound m of the source travels with it)
+        let n = zoo.len();
+        for i in (0..n).step_by(3) {
+            for j in [if (i / 3) % 2 == 0 { (i * 7 + 3) % n } else { n - 1 }] {
+                if j != i {
+                    let mut d = zoo[j].1.clone();
+                    d.clone_from(&zoo[i].1);
+                    let name = format!("clone_from({}) into a value that was {}", zoo[i].0, zoo[j].0);
+                    let m = zoo[i].2;
+                    zoo.push((name, d, m));
+                }
+            }
+        }
     }
     for (name, t, m) in &zoo {
         ctx.case_desc = serde_json::json!({"Zoo": {"ty": X::ALIAS, "elem": <X::T as Elem>::NAME, "state": name}});
